@@ -42,6 +42,9 @@ type Case struct {
 	URL     string `json:"url,omitempty"`     // destination / ACS location / login URL
 	Relay   string `json:"relay,omitempty"`   // relay state
 	Content string `json:"content,omitempty"` // name ID, issuer, request buffer or response text: ends up inside the encoded message
+	// Lead (mwpage): number of IDPSSODescriptors without a POST sign-on endpoint in front of the
+	// descriptor that has it (the action must still be the configured POST endpoint).
+	Lead int `json:"lead,omitempty"`
 
 	// metadata
 	Doc   string   `json:"doc,omitempty"`
@@ -296,7 +299,7 @@ func gen(t *rapid.T) Case {
 	case 0, 1:
 		return Case{Kind: "spform", Form: rapid.SampledFrom([]string{"authn", "logoutreq", "logoutresp"}).Draw(t, "form"), URL: genURL(t, "url"), Relay: genHostile(t, "relay"), Content: xgen.Text().Draw(t, "content")}
 	case 2:
-		return Case{Kind: "mwpage", URL: genURL(t, "url"), Relay: genHostile(t, "relay"), Content: xgen.Text().Draw(t, "content")}
+		return Case{Kind: "mwpage", URL: genURL(t, "url"), Relay: genHostile(t, "relay"), Content: xgen.Text().Draw(t, "content"), Lead: rapid.SampledFrom([]int{0, 0, 1, 2}).Draw(t, "lead")}
 	case 3:
 		return Case{Kind: "idpform", URL: genURL(t, "url"), Relay: genHostile(t, "relay"), Content: xgen.Text().Draw(t, "content")}
 	case 4:
@@ -385,7 +388,7 @@ func emit(c Case, u, relay, content string) (p page, pan any) {
 			ServiceProvider: saml.ServiceProvider{
 				EntityID: content, Key: k.Key, Certificate: k.Cert,
 				MetadataURL: mustURL("https://sp.example.com/saml/metadata"), AcsURL: mustURL("https://sp.example.com/saml/acs"),
-				IDPMetadata: &saml.EntityDescriptor{IDPSSODescriptors: []saml.IDPSSODescriptor{{SingleSignOnServices: []saml.Endpoint{{Binding: saml.HTTPPostBinding, Location: u}}}}},
+				IDPMetadata: &saml.EntityDescriptor{IDPSSODescriptors: leadDescriptors(c.Lead, saml.IDPSSODescriptor{SingleSignOnServices: []saml.Endpoint{{Binding: saml.HTTPPostBinding, Location: u}}})},
 			},
 			Binding: saml.HTTPPostBinding, ResponseBinding: saml.HTTPPostBinding, RequestTracker: fixedTracker{relay},
 			OnError: func(w http.ResponseWriter, _ *http.Request, err error) { http.Error(w, err.Error(), 500) },
@@ -443,6 +446,19 @@ func emit(c Case, u, relay, content string) (p page, pan any) {
 		p.body = w.Body.Bytes()
 	}
 	return p, nil
+}
+
+// leadDescriptors puts n descriptors that offer no POST sign-on endpoint in front of d.
+func leadDescriptors(n int, d saml.IDPSSODescriptor) []saml.IDPSSODescriptor {
+	var out []saml.IDPSSODescriptor
+	for i := 0; i < n; i++ {
+		lead := saml.IDPSSODescriptor{}
+		if i%2 == 0 {
+			lead.SingleSignOnServices = []saml.Endpoint{{Binding: saml.HTTPArtifactBinding, Location: "https://decoy.example/wrong"}}
+		}
+		out = append(out, lead)
+	}
+	return append(out, d)
 }
 
 func formEncode(s string) string {
@@ -868,6 +884,10 @@ func enumFormStrings(_ string, emit func(Case)) {
 			c := k
 			c.URL, c.Relay, c.Content = u, "rs", "content"
 			emit(c)
+			if k.Kind == "mwpage" {
+				c.Lead = 1 + len(u)%2
+				emit(c)
+			}
 		}
 		for _, tok := range htmlHostile {
 			c := k
